@@ -10,6 +10,7 @@ from stix2.base import _STIXBase
 from stix2.datastore import DataSink, DataSource, DataStoreMixin
 from stix2.datastore.filters import FilterSet, apply_common_filters
 from stix2.parsing import parse
+from stix2.utils import parse_into_datetime
 
 
 def _add(store, stix_data, allow_custom=True, version=None):
@@ -74,10 +75,13 @@ class _ObjectFamily(object):
         self.latest_version = None
 
     def add(self, obj):
-        self.all_versions[obj["modified"]] = obj
+        # Objects of unregistered types are dicts whose "modified" is text:
+        # key and compare by instant, not by spelling.
+        modified = parse_into_datetime(obj["modified"])
+        self.all_versions[modified] = obj
         if (
             self.latest_version is None or
-            obj["modified"] > self.latest_version["modified"]
+            modified > parse_into_datetime(self.latest_version["modified"])
         ):
             self.latest_version = obj
 
